@@ -34,7 +34,7 @@ CHECKS = {
     ),
     "C12": (
         "size summaries: sequence lengths as polynomials in the symbolic segment count (custom ast evaluator)",
-        "Only the counting / closure / defaults clause is decided: cell_to_boundary and everything that builds its ring (_get_pentagon, tiling.get_*_vertices, PentagonShape.{__init__, clone, split_edges, get_vertices, transformers}, normalize_longitudes) are evaluated over a domain that tracks only sequence lengths, as polynomials in the symbolic `segments`, for a partition of resolutions and all combinations of the two options (absent / explicit; 'auto', None, 1, 3, symbolic s >= 2). Decided: length == (3 at resolution 1, else 5) * segments + [closed_ring]; the closing element is ring[0], appended exactly once iff closed_ring; None/'auto'/absent agree; split_edges keeps each corner first in its edge group; the example passes keys the callee reads. Simplicity, orientation, latitude range and longitude jumps are numeric and NOT decided. C12.7/C12.8 (heap/effect model): no list that outlives the call is grown or shrunk by the ring-building functions, and cell_to_boundary does not store into its options argument.",
+        "Only the counting / closure / defaults clause is decided: cell_to_boundary and everything that builds its ring (_get_pentagon, tiling.get_*_vertices, PentagonShape.{__init__, clone, split_edges, get_vertices, transformers}, normalize_longitudes) are evaluated over a domain that tracks only sequence lengths, as polynomials in the symbolic `segments`, for a partition of resolutions and all combinations of the two options (absent / explicit; 'auto', None, 1, 3, symbolic s >= 2). Decided: length == (3 at resolution 1, else 5) * segments + [closed_ring]; the closing element is ring[0], appended exactly once iff closed_ring; None/'auto'/absent agree; split_edges keeps each corner first in its edge group; the example passes keys the callee reads. Simplicity, orientation, latitude range and longitude jumps are numeric and NOT decided. C12.7/C12.8 (heap/effect model): no list that outlives the call is grown or shrunk by the ring-building functions, and cell_to_boundary does not store into its options argument. C12.9: cell_to_boundary reads no slot of a module-level options / defaults object that an earlier call has overwritten with an argument-derived value (the C17.1 stale-slot finding restricted to this function).",
         "Trusted: Python list semantics. Appends under undecided conditions or in while loops give UNDECIDED.",
         "DESIGN.md section 3, C12",
     ),
